@@ -43,10 +43,10 @@ Theorem C16_order_independent : forall (sigs sigs' : list signature) (args : lis
   Permutation sigs sigs' -> resolve (viable sigs args) = resolve (viable sigs' args).
 Proof. exact order_independent. Qed.
 
-(* a parameter of exactly the argument's type needs no conversion ... *)
+(* a parameter of exactly the argument's type needs no conversion (an out / inout parameter binds a non-const lvalue: the signature's parameter type carries no const) ... *)
 Theorem C16_identical_type_is_exact : forall (a : ety) (p : param),
   e_scalar _ a = p_scalar _ p -> e_dim _ a = p_dim _ p ->
-  (p_out _ p = true -> e_lvalue _ a = true /\ (e_const _ a = true -> p_const _ p = true)) ->
+  (p_out _ p = true -> e_lvalue _ a = true /\ e_const _ a = false) ->
   find a (param_ety p) = Some (NR_Exact, VR_Exact).
 Proof. exact find_identical. Qed.
 
